@@ -218,16 +218,22 @@ const TARGS: &[&str] = &["int", "double", "char", "long", "short", "float"];
 fn mangle_arg(a: &str) -> String { a.replace(' ', "_") }
 
 /// generated C++ header: templates, uses; returns (text, [(C++ spelling, bindgen's disambiguated name)])
-fn gen_templates(rng: &mut Rng) -> (String, Vec<(String, String)>) {
+fn gen_templates(rng: &mut Rng) -> (String, Vec<(String, String, String)>) {
     let mut text = String::from("template<typename T> struct Box { T v; int n; };\ntemplate<typename T, typename U> struct Pair { T a; U b; char c; };\ntemplate<typename T> struct Wrap { T *p; T arr[3]; };\ntemplate<typename T> struct Unbound { Box<T> inner; };\n");
     let mut uses = vec![];
     // concrete instantiations declared inside a class template, next to dependent ones
     let nested = rng.below(3) != 0;
+    // two records with the same name in different namespaces as arguments: distinct Rust types (with namespaces as modules),
+    // one disambiguated instantiation name
+    let twins = rng.below(2) == 0;
+    if twins {
+        let _ = writeln!(text, "namespace na {{ struct Addr {{ char c[{}]; }}; }}\nnamespace nb {{ struct Addr {{ long a[{}]; }}; }}", 1 + rng.below(7), 1 + rng.below(4));
+    }
     if nested {
         let a = *rng.pick(TARGS); let b = *rng.pick(TARGS);
         let _ = writeln!(text, "template<typename T> struct Holder {{ Box<{a}> flags; Box<T> payload; T extra; Pair<{b}, {a}> both; }};");
-        uses.push((format!("Box<{a}>"), format!("Box_open0_{}_close0", mangle_arg(a))));
-        uses.push((format!("Pair<{b}, {a}>"), format!("Pair_open0_{}_{}_close0", mangle_arg(b), mangle_arg(a))));
+        { let n = format!("Box_open0_{}_close0", mangle_arg(a)); uses.push((format!("Box<{a}>"), n.clone(), n)); }
+        { let n = format!("Pair_open0_{}_{}_close0", mangle_arg(b), mangle_arg(a)); uses.push((format!("Pair<{b}, {a}>"), n.clone(), n)); }
     }
     let n = 2 + rng.below(6);
     text.push_str("struct Uses {\n");
@@ -241,9 +247,16 @@ fn gen_templates(rng: &mut Rng) -> (String, Vec<(String, String)>) {
             _ => (format!("Pair<Box<{a}>, {b}>"), format!("Pair_open0_Box_open1_{}_close1_{}_close0", mangle_arg(a), mangle_arg(b))),
         };
         let _ = writeln!(text, "  {spell} u{i};");
-        uses.push((spell, name));
+        uses.push((spell, name.clone(), name));
     }
     if nested { let a = *rng.pick(TARGS); let _ = writeln!(text, "  Holder<{a}> held;"); }
+    if twins {
+        let _ = writeln!(text, "  Box<na::Addr> twin_a;\n  Box<nb::Addr> twin_b;\n  Pair<na::Addr, nb::Addr> twin_ab;\n  Pair<nb::Addr, na::Addr> twin_ba;");
+        uses.push(("Box<na::Addr>".into(), "Box_open0_Addr_close0".into(), "Box_open0_na_Addr_close0".into()));
+        uses.push(("Box<nb::Addr>".into(), "Box_open0_Addr_close0".into(), "Box_open0_nb_Addr_close0".into()));
+        uses.push(("Pair<na::Addr, nb::Addr>".into(), "Pair_open0_Addr_Addr_close0".into(), "Pair_open0_na_Addr_nb_Addr_close0".into()));
+        uses.push(("Pair<nb::Addr, na::Addr>".into(), "Pair_open0_Addr_Addr_close0".into(), "Pair_open0_nb_Addr_na_Addr_close0".into()));
+    }
     text.push_str("};\n");
     (text, uses)
 }
@@ -255,16 +268,17 @@ fn check_templates(scratch: &Scratch, tag: &str, rng: &mut Rng, targets: &[&str]
         let clang = vec![format!("--target={t}"), "-x".to_string(), "c++".to_string(), "-std=c++14".to_string()];
         std::fs::write(scratch.path(&hname), &text).unwrap();
         let mut exprs = vec![];
-        for (s, _) in &uses { exprs.push(format!("sizeof({s})")); exprs.push(format!("alignof({s})")); }
+        for (s, _, _) in &uses { exprs.push(format!("sizeof({s})")); exprs.push(format!("alignof({s})")); }
         let vals = match probe::clang_table(scratch, &format!("{tag}_{}", t.replace('-', "_")), &scratch.path(&hname), Some(t), true, &exprs) {
             Ok(v) => v, Err(e) => { issues.push(Issue { class: "machinery".into(), target: t.to_string(), config: String::new(), comp: String::new(), detail: format!("clang table (c++): {e}"), header: text.clone() }); continue; }
         };
-        let mut oracle: BTreeMap<String, (u64, u64)> = BTreeMap::new();
-        for (i, (_, n)) in uses.iter().enumerate() { oracle.insert(n.clone(), (vals[2 * i], vals[2 * i + 1])); }
+        // (several C++ types can share one disambiguated name: namespaces are not part of it)
+        let mut oracle: BTreeMap<String, Vec<(u64, u64)>> = BTreeMap::new();
+        for (i, (_, n, n2)) in uses.iter().enumerate() { for n in [n, n2] { let e = oracle.entry(n.clone()).or_default(); if !e.contains(&(vals[2 * i], vals[2 * i + 1])) { e.push((vals[2 * i], vals[2 * i + 1])); } } }
         // third run: the user allowlists every template and `Uses` by name, non-recursively (the map behind
         // `uses_any_template_parameters` is then filled without the analysis)
-        const NONREC: &[&str] = &["--no-recursive-allowlist", "--allowlist-type", "Box|Pair|Wrap|Unbound|Holder|Uses"];
-        for (cfg, extra) in [(&CONFIGS[0], &[][..]), (&CONFIGS[1], &[][..]), (&CONFIGS[0], NONREC), (&CONFIGS[3], NONREC)] {
+        const NONREC: &[&str] = &["--no-recursive-allowlist", "--allowlist-type", "Box|Pair|Wrap|Unbound|Holder|Uses|n[ab]::Addr"];
+        for (cfg, extra) in [(&CONFIGS[0], &[][..]), (&CONFIGS[1], &[][..]), (&CONFIGS[3], &[][..]), (&CONFIGS[0], NONREC), (&CONFIGS[3], NONREC)] {
             stats.runs += 1;
             let nonrec = !extra.is_empty();
             if nonrec { *stats.by_form.entry("inst-nonrecursive-runs".into()).or_insert(0) += 1; }
@@ -320,14 +334,20 @@ fn check_templates(scratch: &Scratch, tag: &str, rng: &mut Rng, targets: &[&str]
                 if !it[0].form.starts_with(want_form) { issues.push(mk("correspondence", &it[0].ty, format!("form {} but offset_of = {}", it[0].form, cfg.2))); }
                 if let Some(f) = it[0].form.strip_prefix("test:") { bases.push(format!("__bindgen_test_layout_{}_instantiation", it[0].ty)); fn_names.push(f.to_string()); }
                 match oracle.get(&it[0].ty) {
-                    Some((s, a)) => { stats.oracle_values += 2; if (*s, *a) != (it[0].value, it[1].value) { issues.push(mk("oracle", &it[0].ty, format!("asserted ({}, {}) for {}, clang --target={t} computes ({s}, {a})", it[0].value, it[1].value, it[0].ty))); } }
+                    Some(vs) => { stats.oracle_values += 2; if !vs.contains(&(it[0].value, it[1].value)) { issues.push(mk("oracle", &it[0].ty, format!("asserted ({}, {}) for {}, clang --target={t} computes {vs:?}", it[0].value, it[1].value, it[0].ty))); } }
                     None => {}
                 }
             }
             exp.sort(); got.sort();
             if exp != got { issues.push(mk("correspondence", "", format!("instantiation assertions: model {exp:?} real {got:?}"))); }
             // every instantiation used with concrete arguments is asserted
-            for (_, n) in &uses { if !inst_items.iter().any(|it| &it[0].ty == n) { issues.push(mk("oracle", n, "no assertion for a concrete template instantiation that appears in the bindings".into())); } }
+            for (i, (sp, n_ns, n_plain)) in uses.iter().enumerate() {
+                let want = (vals[2 * i], vals[2 * i + 1]);
+                let n = if cfg.3 { n_ns } else { n_plain };
+                if !inst_items.iter().any(|it| &it[0].ty == n && it.len() == 2 && (it[0].value, it[1].value) == want) {
+                    issues.push(mk("oracle", n, format!("no assertion of size {} / alignment {} for the concrete template instantiation {sp}, which appears in the bindings", want.0, want.1)));
+                }
+            }
             if !bases.is_empty() {
                 let m = util::model(&[format!("lt names {}", bases.join(","))]);
                 if m[0] != fn_names.join(",") { issues.push(mk("correspondence", "", format!("test fn names: model {} real {}", m[0], fn_names.join(",")))); }
